@@ -272,8 +272,21 @@ func (w *pWorld) bystanderRoundTrip() {
 
 func (w *pWorld) name(sel int64) string {
 	names := []string{"h0", "h1", "h.2_-", strings.Repeat("n", 64), "e#ephemeral", // valid
-		"", "bad name", "bad$", strings.Repeat("n", 65), "#ephemeral", "h0#ephemeralx", "h0\x00", "日本"} // invalid
+		"", "bad name", "bad$", strings.Repeat("n", 65), "#ephemeral", "h0#ephemeralx", "h0\x00", "日本", // invalid
+		// every other printable ASCII character that a name may not contain, one by one (a character class
+		// written A-z instead of A-Z lets five of them through)
+		"h[x", "h\\x", "h]x", "h^x", "h`x", "h@x", "h/x", "h:x", "h{x", "h~x", "h!x", "h+x", "h=x", "h,x", "h*x", "h(x", "h%x", "h&x", "h?x", "h;x", "h<x", "h|x", "h'x", "h\"x"}
 	return names[int(uint64(sel)%uint64(len(names)))]
+}
+
+const nPNames = 37 // len of the table above
+
+// pname: a selector into the name table - the first 13 entries (the ordinary names) most of the time
+func pname(r *PRNG) int {
+	if r.Chance(1, 4) {
+		return r.Intn(nPNames)
+	}
+	return r.Intn(13)
 }
 
 func genTCPOps(rc *RunCtx, c PCfg) []Op {
@@ -285,17 +298,17 @@ func genTCPOps(rc *RunCtx, c PCfg) []Op {
 		conn := int64(r.Intn(3))
 		switch r.Weighted([]int{10, 10, 12, 10, 8, 8, 6, 6, 4, 3, 5, 4, 4, 6, 3, 3}) {
 		case 0:
-			add(Op{Kind: "cmd", S: "IDENTIFY", A: conn, B: int64(r.Intn(24))})
+			add(Op{Kind: "cmd", S: "IDENTIFY", A: conn, B: int64(r.Intn(31))})
 		case 1:
-			add(Op{Kind: "cmd", S: "SUB", A: conn, B: int64(r.Intn(13)), C: int64(r.Intn(13)), D: int64(r.Intn(4))})
+			add(Op{Kind: "cmd", S: "SUB", A: conn, B: int64(pname(r)), C: int64(pname(r)), D: int64(r.Intn(4))})
 		case 2:
-			add(Op{Kind: "cmd", S: "PUB", A: conn, B: int64(r.Intn(13)), C: int64(r.Intn(9))})
+			add(Op{Kind: "cmd", S: "PUB", A: conn, B: int64(pname(r)), C: int64(r.Intn(9))})
 		case 3:
-			add(Op{Kind: "cmd", S: "MPUB", A: conn, B: int64(r.Intn(13)), C: int64(r.Intn(12)), D: int64(r.Range(1, 5))})
+			add(Op{Kind: "cmd", S: "MPUB", A: conn, B: int64(pname(r)), C: int64(r.Intn(12)), D: int64(r.Range(1, 5))})
 		case 4:
-			add(Op{Kind: "cmd", S: "DPUB", A: conn, B: int64(r.Intn(13)), C: int64(r.Intn(9)), D: int64(r.Intn(13))})
+			add(Op{Kind: "cmd", S: "DPUB", A: conn, B: int64(pname(r)), C: int64(r.Intn(9)), D: int64(r.Intn(14))})
 		case 5:
-			add(Op{Kind: "cmd", S: "RDY", A: conn, B: int64(r.Intn(14))})
+			add(Op{Kind: "cmd", S: "RDY", A: conn, B: int64(r.Intn(15))})
 		case 6:
 			add(Op{Kind: "cmd", S: r.PickS("FIN", "REQ", "TOUCH"), A: conn, B: int64(r.Intn(6))})
 		case 7:
@@ -467,7 +480,7 @@ func (w *pWorld) execCmd(op Op) {
 			pc.loose = true
 		case !valid:
 			fatal("E_BAD_BODY")
-			if op.B%24 == 20 {
+			if op.B%31 == 20 {
 				fatal("E_IDENTIFY_FAILED")
 			}
 		default:
@@ -520,7 +533,8 @@ func (w *pWorld) execCmd(op Op) {
 		if op.S == "DPUB" {
 			// (the spellings around 2^64 wrap to small numbers in a parser that forgets the carry)
 			d := []string{"0", "1", fmt.Sprint(w.cfg.MaxReqMs), fmt.Sprint(w.cfg.MaxReqMs + 1), "-1", "abc", "99999999999999999999999", "",
-				"18446744073709551615", "18446744073709551616", "18446744073709551617", "184467440737095516161", "9223372036854775808"}[op.D%13]
+				"18446744073709551615", "18446744073709551616", "18446744073709551617", "184467440737095516161", "9223372036854775808",
+				"000000000000000000000001"}[op.D%14] // (the last: a small number written with more than twenty digits)
 			line = "DPUB " + t + " " + d
 			v, valid, known := spelledDelay(d, false)
 			validDelay = known && valid && v.Sign() >= 0 && v.Cmp(bigInt(w.cfg.MaxReqMs)) <= 0
@@ -536,7 +550,7 @@ func (w *pWorld) execCmd(op Op) {
 			exp = pExpect{open: true, closes: true}
 		case !validName(t):
 			fatal("E_BAD_TOPIC")
-		case op.S == "DPUB" && op.D%13 == 7:
+		case op.S == "DPUB" && op.D%14 == 7:
 			exp = pExpect{open: true, closes: true} // empty delay parameter: not specified
 		case op.S == "DPUB" && !validDelay:
 			fatal("E_INVALID")
@@ -594,7 +608,8 @@ func (w *pWorld) execCmd(op Op) {
 		}
 	case "RDY":
 		v := []string{"0", "1", fmt.Sprint(w.cfg.MaxRdy), fmt.Sprint(w.cfg.MaxRdy + 1), "-1", "x", "99999999999999999999999", "", "007",
-			"18446744073709551616", "18446744073709551617", "18446744073709551615", "184467440737095516161", "9223372036854775808"}[op.B%14]
+			"18446744073709551616", "18446744073709551617", "18446744073709551615", "184467440737095516161", "9223372036854775808",
+			"000000000000000000001"}[op.B%15]
 		line := "RDY " + v
 		if v == "" {
 			line = "RDY"
@@ -842,8 +857,18 @@ func (w *pWorld) identifyBody(sel int64) ([]byte, bool) {
 		{kv{"msg_timeout": c.MaxMsgTOMs + 1}, false},
 		{kv{"feature_negotiation": true, "snappy": true, "deflate": true}, false}, // 20: E_IDENTIFY_FAILED
 		{kv{"msg_timeout": c.MaxMsgTOMs}, true},
+		// 22, 23: see below
+		{kv{}, true}, {kv{}, true},
+		// values whose conversion to nanoseconds (x 1e6) or to a narrower integer wraps around to something in range
+		{kv{"msg_timeout": int64(18446744073710) + 1500}, false},
+		{kv{"heartbeat_interval": int64(18446744073710) + 1500}, false},
+		{kv{"output_buffer_timeout": int64(18446744073710) + 50}, false},
+		{kv{"output_buffer_size": int64(1)<<32 + 64}, false},
+		{kv{"sample_rate": int64(1)<<32 + 50}, false},
+		{kv{"msg_timeout": int64(9223372036854775807)}, false},
+		{kv{"heartbeat_interval": int64(9223372036854775807)}, false},
 	}
-	i := int(uint64(sel) % 24)
+	i := int(uint64(sel) % uint64(len(cases)))
 	switch i {
 	case 22:
 		return []byte(`{"client_id":`), false
